@@ -82,7 +82,7 @@ spec("C02", "Config-class round trip",
      [named(O.rule_order, "rule_order_class", only=("emit.class_",)), TB.rule_table_cvar, scoped(FA.rule_falsy, "falsy_class", "emit.class_", "parse.class_"), named(FW.rule_fwd, "rule_fwd", accepted=FWD_ACCEPTED), det3("class", "emit.class_", "parse.class_")],
      "Necessary conditions: (ORDER) the class emitter produces exactly one attribute per parameter, in mapping order, never None, named by the parameter's key, with "
      "no filter/sort between the mapping and the attribute list; (TABLE-cvar) the ':cvar' marker and the reserved 'return_type' attribute written by the class "
-     "emitter are exactly what the class and function parsers substitute / pop back. (DET-3, scoped) no function on this property's code path writes state that outlives the call (module globals/objects, function or class attributes, mutated mutable defaults, memoised mutable results): the conversion is not history-dependent.",
+     "emitter are exactly what the class and function parsers substitute / pop back. (FWD) an option the caller was given (word_wrap, emit_default_doc, docstring_format, ...) is forwarded to every callee that has the same option with a default - directly, through a partial or a wrapper; the confirmed exceptions are listed with reasons (props.FWD_ACCEPTED) or lie on the live-object path. (DET-3, scoped) no function on this property's code path writes state that outlives the call (module globals/objects, function or class attributes, mutated mutable defaults, memoised mutable results): the conversion is not history-dependent.",
      floors={"ORDER": 1, "TABLE-cvar": 4},
      technique="structural sequence analysis of the emitter (map/filter/comprehension chain), return-path analysis of the element function, constant folding",
      not_decided="preservation of values/types/prose; the documented zero-value normalisation; the parser's merge of docstring- and attribute-derived entries")
@@ -93,7 +93,7 @@ spec("C03", "Function / method round trip",
      "Necessary conditions: (ORDER) one argument per non-**kwargs parameter in order, named by the key, with the name-only **kwargs partition and its complement both "
      "consumed; (ALIGN-emit) defaults/kw_defaults are built one per argument from the same sequence (symbolic length identities over all paths); (ALIGN-parse) "
      "signature defaults are padded to exactly the argument count and keep their positions; (TABLE-kind) self/cls/static and the **kwargs suffix agree between "
-     "emitter and recognisers; (NULL-1/2) no definite None dereference on the return-only / prose-less return paths. (DET-3, scoped) no function on this property's code path writes state that outlives the call (module globals/objects, function or class attributes, mutated mutable defaults, memoised mutable results): the conversion is not history-dependent.",
+     "emitter and recognisers; (NULL-1/2) no definite None dereference on the return-only / prose-less return paths. (FWD) an option the caller was given (word_wrap, emit_default_doc, docstring_format, ...) is forwarded to every callee that has the same option with a default - directly, through a partial or a wrapper; the confirmed exceptions are listed with reasons (props.FWD_ACCEPTED) or lie on the live-object path. (DET-3, scoped) no function on this property's code path writes state that outlives the call (module globals/objects, function or class attributes, mutated mutable defaults, memoised mutable results): the conversion is not history-dependent.",
      floors={"ORDER": 2, "ALIGN-emit": 2, "ALIGN-parse": 1, "TABLE-kind": 3, "NULL-1": 1},
      technique="linear-form length algebra evaluated path-sensitively; structural sequence analysis; constant folding; None-return summaries",
      not_decided="equality of types/prose/defaults, return interpolation text, indent levels")
@@ -104,7 +104,7 @@ spec("C04", "argparse round trip",
       named(CO.rule_coord, "rule_coord_defaults"), named(FW.rule_fwd, "rule_fwd", accepted=FWD_ACCEPTED), det3("argparse", "emit.argparse_function", "parse.argparse_ast")],
      "Necessary conditions: (ORDER) exactly one add_argument call per parameter, in order, carrying '--<key>'; (TABLE-argparse) every keyword by which the emitter "
      "carries IR information is read by the parser, the '--' prefix added is the prefix stripped, the recogniser predicates test both receiver and attribute the "
-     "emitter builds, written action constants are understood. (DET-3, scoped) no function on this property's code path writes state that outlives the call (module globals/objects, function or class attributes, mutated mutable defaults, memoised mutable results): the conversion is not history-dependent.",
+     "emitter builds, written action constants are understood. (COORD) no position measured on a transformed copy of the prose (strip / casefold / replace change lengths; also through a search helper given a normalising callable) is used to cut the original prose. (FWD) an option the caller was given (word_wrap, emit_default_doc, docstring_format, ...) is forwarded to every callee that has the same option with a default - directly, through a partial or a wrapper; the confirmed exceptions are listed with reasons (props.FWD_ACCEPTED) or lie on the live-object path. (DET-3, scoped) no function on this property's code path writes state that outlives the call (module globals/objects, function or class attributes, mutated mutable defaults, memoised mutable results): the conversion is not history-dependent.",
      floors={"ORDER": 1, "TABLE-argparse": 10},
      technique="structural sequence analysis; constant/keyword table extraction from writer and reader",
      not_decided="required/default/Optional interplay, choices quoting, numeric vs string defaults (value-level)")
@@ -134,7 +134,7 @@ spec("C08", "Fixed point after one pass",
       named(CO.rule_coord, "rule_coord_defaults"), named(FW.rule_fwd, "rule_fwd", accepted=FWD_ACCEPTED), det3("all", "emit.docstring", "emit.class_", "emit.function", "emit.argparse_function", "parse.docstring", "parse.class_", "parse.function", "parse.argparse_ast"),
       C.rule_call_dispatch],
      "Necessary condition: (TABLE-announce b) each writer of the default sentence recognises its own sentence as 'already present' - either by calling the reader "
-     "itself or by a substring of the written phrase - otherwise one more sentence is appended on every pass. (DET-3, scoped) no function on this property's code path writes state that outlives the call (module globals/objects, function or class attributes, mutated mutable defaults, memoised mutable results): the conversion is not history-dependent.",
+     "itself or by a substring of the written phrase - otherwise one more sentence is appended on every pass. (COORD) no position measured on a transformed copy of the prose (strip / casefold / replace change lengths; also through a search helper given a normalising callable) is used to cut the original prose. (FWD) an option the caller was given (word_wrap, emit_default_doc, docstring_format, ...) is forwarded to every callee that has the same option with a default - directly, through a partial or a wrapper; the confirmed exceptions are listed with reasons (props.FWD_ACCEPTED) or lie on the live-object path. (DET-3, scoped) no function on this property's code path writes state that outlives the call (module globals/objects, function or class attributes, mutated mutable defaults, memoised mutable results): the conversion is not history-dependent.",
      floors={"TABLE-announce": 3},
      technique="constant folding of writer phrase / reader announcement tables; guard analysis of the writer",
      not_decided="byte identity of the 2nd and 3rd emission in general (quote guards, indentation, wrapping are value-level)")
@@ -153,7 +153,7 @@ spec("C10", "sync idempotent / truth untouched / truthful report",
      [F.rule_file0, F.rule_file1_truth, F.rule_file1b, F.rule_file2, F.rule_file2b, C.rule_call_dispatch, F.rule_file5, det3("sync", "conformance.ground_truth")],
      "Necessary conditions: (FILE-1) every call from the sync worker that can reach a write sink is guarded by a comparison of the target filename with the truth file; (FILE-1b) both sides of that comparison are canonicalised by the same path functions; (CALL-SIB) the create / append / replace branches emit with the same option flags; "
      "(FILE-2) on every enumerated path of _conform_filename the returned and printed changed-flag is true iff a write lies on the path; (FILE-2b) the in-place rewrite is "
-     "control-dependent on an AST-inequality test. (DET-3, scoped) no function on this property's code path writes state that outlives the call (module globals/objects, function or class attributes, mutated mutable defaults, memoised mutable results): the conversion is not history-dependent.",
+     "control-dependent on an AST-inequality test. (FILE-5) a definition appended to an existing file starts on a new line after every other transformation of the text (otherwise it is glued to the last line, is not found by the next run, and is appended again). (DET-3, scoped) no function on this property's code path writes state that outlives the call (module globals/objects, function or class attributes, mutated mutable defaults, memoised mutable results): the conversion is not history-dependent.",
      floors={"FILE-1": 1, "FILE-2": 4, "FILE-2b": 1},
      technique="call-graph reachability of write sinks, guard/control-dependence analysis, exhaustive CFG path enumeration",
      not_decided="byte identity of a second run (needs emit.parse to be a fixed point: value-level); growth by repeated append when the lookup cannot find what was appended")
@@ -190,7 +190,7 @@ spec("C14", "sync_properties changes exactly the addressed property",
      [F.rule_file1_input, F.rule_file7, O.rule_pairs_all, named(M.rule_modf, "rule_modf_sync_properties", workers=("sync_properties.sync_properties",)), M.rule_modf2, CLI.rule_cli1, A.rule_align_idx, det3("sync_properties", "sync_properties.sync_properties")],
      "Necessary conditions: (FILE-1) no value derived from the input filename reaches the path of a write sink; (FILE-7) the single write of the output file comes after all "
      "pairs and every returning path after the transformer ran tests `.replaced` with a raising failing branch; (MOD-F) only the addressed node is field-mutated on the "
-     "read->write path; (MOD-F2) the node taken from the input tree is copied before it is mutated/grafted; (CLI-1) CLI dests bind to the worker's signature. (DET-3, scoped) no function on this property's code path writes state that outlives the call (module globals/objects, function or class attributes, mutated mutable defaults, memoised mutable results): the conversion is not history-dependent.",
+     "read->write path; (MOD-F2) the node taken from the input tree is copied before it is mutated/grafted; (CLI-1) CLI dests bind to the worker's signature. (ALIGN-idx) an index used on `<fn>.args.defaults` comes from the positional argument list only (the `_idx` numbering restarts for keyword-only arguments), so replacing one argument cannot overwrite the default of another. (DET-3, scoped) no function on this property's code path writes state that outlives the call (module globals/objects, function or class attributes, mutated mutable defaults, memoised mutable results): the conversion is not history-dependent.",
      floors={"FILE-1": 2, "FILE-7": 2, "MOD-F": 3, "MOD-F2": 1, "CLI-1": 2},
      technique="taint over the call graph, CFG path facts, frame rule, ownership of foreign nodes",
      not_decided="that the addressed node is the right one (C15), eval mode (executes the input module)")
@@ -199,7 +199,7 @@ spec("C15", "Dotted locations",
      [named(V.rule_visit3, "rule_visit3", location_inductive=V.location_is_inductive), V.rule_visit4, V.rule_visit4b, V.rule_visit2, V.rule_visit6, A.rule_align_idx],
      "Necessary conditions: (VISIT-3) typestate over the CFG of find_in_ast: a path segment is consumed only after the previous one was matched and a node is answered only "
      "in state MATCHED; (VISIT-3b) answers decided by `_location == search` alone are only accepted while the annotation is inductive; (VISIT-4) every `_location` is built "
-     "from the parent's location; (VISIT-2) replace at most once; (VISIT-6) locations are compared by exact equality only.",
+     "from the parent's location; (VISIT-2) replace at most once; (VISIT-6) locations are compared by exact equality only. (ALIGN-idx) an index used on `<fn>.args.defaults` comes from the positional argument list only (the `_idx` numbering restarts for keyword-only arguments), so replacing one argument cannot overwrite the default of another.",
      floors={"VISIT-3": 4, "VISIT-4": 4, "VISIT-2": 1, "VISIT-6": 3},
      technique="three-state typestate dataflow on a hand-built statement CFG; data-dependence of location assignments",
      not_decided="full functional correctness of the resolver against an independent one")
@@ -208,7 +208,7 @@ spec("C16", "Bodies carried verbatim",
      [V.rule_visit5, TB.rule_table_argparse, M.rule_mod1_2, O.rule_ret_top, det3("bodies", "emit.class_", "emit.function", "emit.argparse_function", "parse.class_", "parse.function", "parse.argparse_ast")],
      "Necessary conditions: (VISIT-5) the parameter->self.<parameter> renamer rewrites only names in its set, handles every scope-introducing node kind, and its set is exactly "
      "the IR's parameter names as given (computed before the return entry is folded in); (TABLE-argparse) the argparse recognisers pin down receiver and attribute, so only "
-     "the emitter's own statements are treated as interface and every other statement stays in the carried body. (DET-3, scoped) no function on this property's code path writes state that outlives the call (module globals/objects, function or class attributes, mutated mutable defaults, memoised mutable results): the conversion is not history-dependent.",
+     "the emitter's own statements are treated as interface and every other statement stays in the carried body. (RET-TOP) the return default is read from a top-level statement of the body only, which is what the function emitter's replacement of a trailing `return` assumes; a default taken from a nested block makes the re-emitted body one statement longer. (DET-3, scoped) no function on this property's code path writes state that outlives the call (module globals/objects, function or class attributes, mutated mutable defaults, memoised mutable results): the conversion is not history-dependent.",
      floors={"VISIT-5": 3, "TABLE-argparse": 10},
      technique="visitor-coverage check against the grammar's scope-introducing node kinds; reaching-definition check of the rename set; recogniser constant extraction",
      not_decided="positional special cases of body splicing (slices of the runtime body list), trailing-return handling")
@@ -228,7 +228,7 @@ spec("C17", "Defaults through prose",
 spec("C18", "Wrapping / line length transparent",
      [T.rule_typeflow, T.rule_wrap_last, named(CO.rule_coord, "rule_coord_defaults"), det3("emit", "emit.docstring", "emit.class_", "emit.function", "emit.argparse_function")],
      "Necessary conditions: (TYPEFLOW) the configured width read from the environment passes int()/float() before every numeric sink (width= of textwrap, comparison with "
-     "len()); (WRAP-LAST) no reader of prose (default-sentence scanner) is applied to an already word-wrapped string. (DET-3, scoped) no function on this property's code path writes state that outlives the call (module globals/objects, function or class attributes, mutated mutable defaults, memoised mutable results): the conversion is not history-dependent.",
+     "len()); (WRAP-LAST) no reader of prose (default-sentence scanner) is applied to an already word-wrapped string. (COORD) no position measured on a transformed copy of the prose (strip / casefold / replace change lengths; also through a search helper given a normalising callable) is used to cut the original prose. (DET-3, scoped) no function on this property's code path writes state that outlives the call (module globals/objects, function or class attributes, mutated mutable defaults, memoised mutable results): the conversion is not history-dependent.",
      floors={"TYPEFLOW": 2, "WRAP-LAST": 5},
      technique="type-state taint from environment reads to numeric sinks across modules; intra-procedural taint from wrapping calls to reader calls",
      not_decided="parse(wrapped) == parse(unwrapped) in general")
